@@ -147,9 +147,18 @@ Definition op_labels (o : op) (w : nat) : list str :=
       else []
   end.
 
+(* the reading is unambiguous when no gate text contains the closing box character  ├  *)
+Definition text_ok (o : op) : Prop :=
+  match o with
+  | Gate name al _ _ => ~ In cLT (gate_text name al)
+  | Meas _ _ => True
+  end.
+
 Definition circuit_labels (ops : list op) (w : nat) : list str := flat_map (fun o => op_labels o w) ops.
 
-(* the wire printed in position i (0 = first printed wire) *)
+(* the wire printed in position i (0 = first printed wire): qubits N-1 .. 0, then classical bits last .. first *)
+Definition wire_at (nq nc i : nat) : nat := if i <? nq then nq - 1 - i else nq + (nq + nc - 1 - i).
+
 Definition print_order (nq nc : nat) : list nat := rev (seq 0 nq) ++ rev (seq nq nc).
 
 (* ------------------------------------------------------------------------------------------ *)
